@@ -298,8 +298,9 @@ def register2(w):
                requires=["self.rfile.pos <= len(self.rfile.content)", "ghost.nescaped == 0"],
                modifies=["self.rfile.pos", "ghost.log", "ghost.nescaped"], raises={},
                ghost={"log": "log", "nescaped": "int"},
-               opts={"getprotocol_iface": True},
+               opts={"getprotocol_iface": True, "must_hit": ["after~request = "]},
+               at={"after~request = ": [("assert", "self.rfile.pos == len(self.rfile.content) or self.rfile.content[self.rfile.pos - 1:self.rfile.pos] == b'\\n'")]},
                ensures=["len(ghost.log) <= 1", "len(ghost.log) == ghost.nescaped",
                         "implies(len(ghost.log) == 1, ghost.log[0].startswith(self.client_address[0] + ' [AnyProtocol/None] EXCEPTION OSError: '))"],
-               note="nothing raised by the protocol reaches the accept loop; a failure that escapes the protocol IS logged (len(log) == number of escaped failures), once, with the client's address and under the class of the exception that was caught (AnyProtocol stands for the protocol class name)",
-               props=["C20", "C03"])
+               note="nothing raised by the protocol reaches the accept loop; a failure that escapes the protocol IS logged (len(log) == number of escaped failures), once, with the client's address and under the class of the exception that was caught (AnyProtocol stands for the protocol class name); the protocol is chosen from the whole first line (C02: what is read is the input up to and including its first newline, or all of it)",
+               props=["C20", "C03", "C02"])
